@@ -8,7 +8,7 @@ import (
 
 func TestMain(m *testing.M) {
 	ev.Main(m, "C04", "exploration",
-		"rapid state machine: APPEND, COPY, MOVE (ranges and out-of-order unions), connector MessagesCreated / MessageMailboxesUpdated, STORE \\Deleted + EXPUNGE biased to the highest UID, failing commands, MOVE from a view that is behind (COPYUID pairing), DELETE + re-CREATE of the same name, DELETE + RENAME INBOX onto the same name, connector UIDValidityBumped and server RESTART (new gluon.New on the same directories with a fresh default UIDVALIDITY generator). Oracle: a ledger keyed by (mailbox name, UIDVALIDITY) fed by every observation (APPENDUID, COPYUID, fresh views with markers, UIDNEXT): a (name, validity, uid) never denotes two messages, new UIDs exceed every UID ever recorded, UIDNEXT exceeds every recorded UID and never decreases, APPENDUID/COPYUID pairs are where the messages are found, and a new UIDVALIDITY of a name exceeds every earlier one. Non-trivial: history with (expunge of the highest UID or delete/re-create or bump) followed by a new assignment, or a restart between two assignments; distinct by hash of the operation sequence.",
+		"rapid state machine: APPEND, COPY, MOVE (ranges and out-of-order unions), connector MessagesCreated / MessageMailboxesUpdated, STORE \\Deleted + EXPUNGE biased to the highest UID, failing commands, MOVE from a view that is behind (COPYUID pairing), DELETE + re-CREATE of the same name, DELETE + RENAME INBOX onto the same name, connector UIDValidityBumped and server RESTART (new gluon.New on the same directories with a fresh default UIDVALIDITY generator). Oracle: a ledger keyed by (mailbox name, UIDVALIDITY) fed by every observation (APPENDUID, COPYUID, fresh views with markers, UIDNEXT): a (name, validity, uid) never denotes two messages, new UIDs exceed every UID ever recorded, UIDNEXT exceeds every recorded UID and never decreases, APPENDUID/COPYUID pairs are where the messages are found, and a new UIDVALIDITY of a name exceeds every earlier one. A second property draws the age of the epoch of imap.EpochUIDValidityGenerator over 0 .. 2^33 seconds (biased to the 32-bit boundary): a generator started later hands out a larger value or refuses, values are the seconds since the epoch, one instance grows strictly (non-trivial there: an age within 100000 s of 2^32 or beyond). Non-trivial: history with (expunge of the highest UID or delete/re-create or bump) followed by a new assignment, or a restart between two assignments; distinct by hash of the operation sequence.",
 		"message identity through the X-Verif-Marker header",
 		"clean restarts only; crash points are C07's subject")
 }
